@@ -246,3 +246,57 @@ func H_C07_Push() {
 	v.Assert(len(zzOffers) == 0 && len(zzDrain(c2)) == 0, "nor to clients that have not joined")
 	v.Reach("end")
 }
+
+// model of (*webrtc.PeerConnection).Close: the transport is pion's.
+func zzPCClose(pc *webrtc.PeerConnection) error { return nil }
+
+// H_C07_Teardown: when a publisher closes a stream, loses the right to
+// present, leaves, or its connection ends (kick, disconnect: clientLoop's
+// deferred leaveGroup), every subscriber that was offered the stream is sent
+// a close for it - exactly one - and forgets it; the publisher no longer
+// owns it.  Publisher "o" owns stream "x"; member "m" (any role) holds the
+// corresponding down connection.
+func H_C07_Teardown() {
+	trigger := v.Choice("trigger", 4)
+	c, other, g, _ := zzWorld(1)
+	up := &rtpUpConnection{id: "x", client: other, label: "l"}
+	other.up = map[string]*rtpUpConnection{"x": up}
+	c.down = map[string]*rtpDownConnection{"x": {id: "x", remote: up}}
+	switch trigger {
+	case 0:
+		handleClientMessage(other, clientMessage{Type: "close", Id: "x"})
+	case 1:
+		handleAction(other, changePermissionsAction{kind: "unpresent"})
+		for _, a := range zzQueued(other) {
+			if _, ok := a.(permissionsChangedAction); ok {
+				handleAction(other, a)
+			}
+		}
+	case 2:
+		handleClientMessage(other, clientMessage{Type: "join", Kind: "leave", Group: "g"})
+	case 3:
+		leaveGroup(other) // what clientLoop defers: kick, protocol error, disconnect
+	}
+	v.Assert(len(other.up) == 0 && up.closed, "the publisher no longer owns the stream and it is marked closed")
+	n := 0
+	for _, a := range zzQueued(c) {
+		p, ok := a.(pushConnAction)
+		if !ok {
+			continue
+		}
+		n++
+		v.Assert(p.group == g && p.id == "x" && p.conn == nil, "the subscriber is told that stream x is gone")
+		handleAction(c, a)
+	}
+	v.Assert(n == 1, "every subscriber that was offered the stream is notified exactly once")
+	closes := 0
+	for _, m := range zzDrain(c) {
+		if m.Type == "close" {
+			closes++
+			v.Assert(m.Id == "x", "a close only for the stream that ended")
+		}
+	}
+	v.Assert(closes == 1, "the subscriber is sent exactly one close for it")
+	v.Assert(len(c.down) == 0, "and forgets its down connection")
+	v.Reach("end")
+}
